@@ -185,6 +185,9 @@ fn run_e1_property(id: &str, thorough: bool, ev: &mut Evidence, t0: Instant) {
     let seeds = families::fs_with(&verif_dir().join("seeds"), thorough);
     // order: small / dense / deep families first (never capped), bulk families last (capped in the quick tier)
     let mut fams: Vec<families::Family> = vec![families::f1(), families::fsetup(if thorough { 12 } else { 4 }, if thorough { 8 } else { 3 }), seeds, if thorough { families::fplus(families::interior_squares(), 3, "every interior square") } else { families::fplus(vec![21, 35], 3, "trap f6, d4 (the plus around trap c3 is the padded family FPX)") }];
+    if thorough || matches!(id, "C01" | "C02" | "C04" | "C07" | "C10" | "C12" | "C13") {
+        fams.push(families::f3line());
+    }
     let uncapped = fams.len();
     // C14 explores path-sensitively (every order of steps separately); the per-turn record does not depend on piece
     // kinds beyond rabbit / non-rabbit / strength order, so its quick tier uses six kinds for the 2-piece boards
